@@ -253,7 +253,7 @@ def drive_and_validate(run, vh, sc, thorough):
         p = subprocess.run([vh, "pauselock-drive", "-seed", str(run.seed), "-traces", str(traces), "-packets", str(packets),
                             "-calls", str(calls)], stdout=fh, stderr=subprocess.PIPE, text=True, timeout=1500)
     if p.returncode != 0:
-        raise vlib.MachineryError("pauselock-drive failed: " + p.stderr[-2000:])
+        raise vlib.MachineryError("pauselock-drive failed (rc=%s): HEAD: %s ... TAIL: %s" % (p.returncode, p.stderr[:2500], p.stderr[-800:]))
     lines = open(tfile).read().splitlines()
     evs = [json.loads(x) for x in lines]
     stuck = [e for e in evs if e.get("ev") == "Stuck"]
